@@ -115,6 +115,8 @@ def dibs() -> list[Any]:
     return [
         dib_device(),
         dib_device("", True),
+        dib_device("Büro Süd ÄÖÜß"),            # the name field is ISO 8859-1
+        dib_device("x" * 29 + "ü"),             # full 30 characters, non-ASCII at the end
         dib_families(DIBSuppSVCFamilies, [(DIBServiceFamily.CORE, 1), (DIBServiceFamily.TUNNELING, 2), (DIBServiceFamily.ROUTING, 1)]),
         dib_families(DIBSuppSVCFamilies, []),
         dib_families(DIBSecuredServiceFamilies, [(DIBServiceFamily.TUNNELING, 1)]),
